@@ -167,6 +167,7 @@ type c17Probe struct {
 	Overlap    string        // non-empty: what went wrong with the overlapping scrapes
 	OverlapAPI string        // non-empty: what went wrong with the overlapping debug API requests
 	OverlapTo  time.Duration // virtual instant at which the last overlapping scrape had finished (one slow state read per interface)
+	End        time.Duration // virtual instant at which the scrape and the requests of the probe proper had been answered
 }
 
 // c17StateAt is the system state at virtual time at (ambiguous exactly at the change).
@@ -353,6 +354,7 @@ func c17Prop(t *testing.T, k *verifkit.Kit) func(c c17Case) error {
 						h.ServeHTTP(rec, httptest.NewRequest("GET", "/debug/pprof/", nil))
 						p.PProf = rec.Code
 					}()
+					p.End = w.now()
 					// (two rounds: three requests 0.7 ms apart, then two requests 1.4 ms apart - with three, what one request
 					// overwrites in shared state another may put back before the first looks again)
 					for _, offs := range [][]time.Duration{{0, 700 * time.Microsecond, 1400 * time.Microsecond}, {0, 1400 * time.Microsecond}} {
@@ -601,6 +603,15 @@ func c17Prop(t *testing.T, k *verifkit.Kit) func(c c17Case) error {
 			}
 			// expected content
 			allReady, ambiguous := true, false
+			// an interface that is being (re-)initialised while the probe's requests are answered - also long after the
+			// link event that caused it: the advertiser first finishes what it was doing - changes what they report, and the
+			// wrapped Prepare has a moment in which the plugin still reads the sandbox's own tables (false alarm of
+			// background run 20, section 9)
+			for _, x := range allPrep {
+				if x >= p.At-time.Millisecond && x <= max(p.End, p.At)+time.Millisecond {
+					ambiguous = true
+				}
+			}
 			type expIf struct {
 				ri  rIface
 				ra  *ndp.RouterAdvertisement
